@@ -158,7 +158,7 @@ EvNode(nd, st, d, C) ==
 
 \* one loop; `it` iterations done so far, `lvv` current loop-variable value
 EvLoop(nd, st, d, C, it, lvv) ==
-    LET go == CASE nd.form = "count" -> it < nd.cnt
+    LET go == CASE nd.form \in {"count", "for"} -> it < nd.cnt   \* "for": a list of cnt items
                 [] nd.form = "while" -> EvalE(nd.cond, st.sc) # 0
                 [] OTHER -> TRUE
     IN IF st.err # "-" \/ ~go THEN st
